@@ -47,7 +47,7 @@ class C08(IRProp):
     id = "C08"
     prop_file = "Properties/C08.v"
     tag = "c08"
-    genopts = dict(with_aux=False, with_data=False, nfun_max=2, to_proxy=False)
+    genopts = dict(with_aux=False, nfun_max=2, to_proxy=False, cfi_patches=True, data_first=0.4)
     trusted_base = IRProp.base_trusted + ["gtirb_rewriting.dwarf.cfi_eval (verified separately as C15) is the evaluator the oracle runs before and after"]
     assumptions = ["patches of the generator carry no CFI directives", "inputs whose directives do not evaluate cleanly are outside the quantifier and skipped"]
     level_rule = ("random x86-64 modules whose functions carry startproc/def_cfa ... endproc with def_cfa_offset, undefined, balanced "
@@ -74,7 +74,9 @@ class C08(IRProp):
             ev1, marks1 = unwind(m)
         except Exception as e:     # noqa
             return [dict(what=f"directives no longer evaluate: {type(e).__name__}: {e}", finding=self.classify_eval(case))]
-        if marks0 != marks1 and self.without_deleted_procedures(case, marks0) != marks1:
+        # .cfi_remember_state / .cfi_restore_state of a patch carry no operand (identity 0; the input's have identities >= 2)
+        marks1 = [x for x in marks1 if x not in (("M", 0), ("R", 0))]
+        if marks0 != marks1 and marks1 not in self.without_deleted_procedures(case, marks0):
             bad.append(dict(what=f"procedure structure changed: {marks0} -> {marks1}"))
         # instruction by instruction
         starts, acc = [], 0
@@ -118,9 +120,25 @@ class C08(IRProp):
                                             # block or the start of the next one: the same place in the listing): either side is a legitimate reading
                     want_in = state_at(ev0, 0x1000 + begins[i] + off - 1) if off > 0 else state_at(ev0, 0x1000 + begins[i])
                     nxt = state_at(ev0, 0x1000 + begins[i] + off) if off < case.size(i) else want_in
+                    own_cfi = isinstance(case.mods[n][4], str) and ".cfi_" in case.mods[n][4]
                     for j in range(plen):
                         got = state_at(ev1, 0x1000 + starts[i] + off + delta + j)
-                        if got not in (want_in, nxt):
+                        if own_cfi and j > 0:
+                            # the patch's own directives take effect behind its first instruction when it is inside a procedure
+                            first = state_at(ev1, 0x1000 + starts[i] + off + delta)
+                            if (first != ("outside",)) and got == first:
+                                bad.append(dict(what=f"inserted byte {i}+{off}+{j}: the patch's own CFI directives are not in effect (state {got})"))
+                                break
+                            if first == ("outside",) and got != first:
+                                bad.append(dict(what=f"inserted byte {i}+{off}+{j}: inside a procedure although the patch was inserted outside"))
+                                break
+                            continue
+                        if own_cfi and got != ("outside",):
+                            # the patch may open with .cfi_remember_state: the depth of the state stack is not compared
+                            ok_ = any(w != ("outside",) and got[:3] == w[:3] for w in (want_in, nxt))
+                        else:
+                            ok_ = got in (want_in, nxt)
+                        if not ok_:
                             bad.append(dict(what=f"inserted byte {i}+{off}+{j}: unwind state {got}, insertion point has {want_in} / {nxt}"))
                             break
                     delta += plen
@@ -128,8 +146,9 @@ class C08(IRProp):
 
     @staticmethod
     def without_deleted_procedures(case, marks0):
-        """marks0 minus the procedures all of whose bytes are deleted (their start / end directives go with the code they
-        describe, and so does everything between them)"""
+        """the mark sequences that are marks0 minus some of the procedures all of whose bytes are deleted: such a procedure may go
+        with the code it describes (start, end and everything between them) or stay behind as an empty procedure"""
+        import itertools
         begins, a = [], 0
         for i in range(len(case.blocks)):
             begins.append(a)
@@ -144,21 +163,26 @@ class C08(IRProp):
                 for (c, did) in case.cfi[i][d]:
                     if c in "SEMR":
                         seq.append((begins[i] + d, c, did))
-        drop, open_ = set(), None
+        groups, open_ = [], None
         for k, (pos, c, did) in enumerate(seq):
             if c == "S":
                 open_ = k
             elif c == "E" and open_ is not None:
                 lo, hi = seq[open_][0], pos
                 if hi > lo and all(x in deleted for x in range(lo, hi)):
-                    drop |= {(c2, d2) for (_, c2, d2) in seq[open_:k + 1]}
+                    groups.append({(c2, d2) for (_, c2, d2) in seq[open_:k + 1]})
                 open_ = None
-        return [x for x in marks0 if x not in drop]
+        out = []
+        for r_ in range(len(groups) + 1):
+            for sub in itertools.combinations(groups, r_):
+                drop = set().union(*sub) if sub else set()
+                out.append([x for x in marks0 if x not in drop])
+        return out
 
     def classify_eval(self, case):
         # known finding: the bytes carrying .cfi_def_cfa (at the start of a procedure) are deleted, a later .cfi_def_cfa_offset has no CFA
         for (bi, t, off, ln, patch, _) in case.mods:
-            if t != "ins" and off == 0 and any(c == "D" for (c, _) in case.cfi.get(bi, {}).get(0, [])):
+            if t != "ins" and any(off <= d < off + ln and any(c == "D" for (c, _) in ds) for d, ds in case.cfi.get(bi, {}).items()):
                 return "C08-def-cfa-dropped-with-the-entry-instruction"
         return None
 
